@@ -204,7 +204,7 @@ ODD_VALUES = (1, 2.5, True, "s", "x" * 50, b"by", b"\xff\xfe", None, [1, 2], ["a
 def generate(seed, tier):
     r = random.Random(seed)
     arm = r.choice(("lin", "lin", "seq", "seq", "wire"))
-    knobs = common.draw_knobs(r, stall_p=0.0)
+    knobs = common.race_knobs(r, stall_p=0.0)
     if arm == "lin":
         nthreads = r.randrange(2, 5)
         total = r.randrange(4, 13)
